@@ -198,7 +198,7 @@ def record_serializer_traces(ctx, n, seed):
 
 def run(ctx):
     ctx.rule = (
-        "TLC: all well-nested receiver-call sequences within the MC_Writer constants x 12 hostile user prefix maps, "
+        "TLC: all well-nested receiver-call sequences within the MC_Writer constants x 14 hostile user prefix maps, "
         "invariants NativeWellFormed/LxmlWellFormed/Slots in every state; every completed behaviour is replayed into the "
         "real XmlEventWriter and LxmlEventWriter (decisive: expat accepts the text and every element, attribute and QName "
         "value is in the namespace asked for); real XmlSerializer executions over the model zoo are recorded and validated "
